@@ -41,7 +41,7 @@ CLAIMED = {
             "tail punch under that region's metadata write lock with a single-guard snapshot; every punch under layout "
             "and file read locks; KEEP_SIZE; nobody but the growth functions changes a file length; writers hold the metadata "
             "lock while copying; the hole map is rebuilt in start order at open; hole amount conserved; hole indexes "
-            "written together. Not the page-rounding "
+            "written together; Layout::len takes the last extent of every map. Not the page-rounding "
             "arithmetic.", "DESIGN.md §4 C12"),
     "C13": ("refusal-atomicity dataflow (mutation provenance + error-variant flow, `?`-branch sensitive, "
             "interprocedural summaries)",
@@ -66,7 +66,8 @@ CLAIMED = {
     "C17": ("abstract interpretation of `a <= b` facts over MIR discharging every panic / allocation site of the decoders",
             "Decoders never panic, overflow or allocate beyond the input on arbitrary bytes; validity checks present; "
             "bad metadata slots skipped without shifting their neighbours' indices; writer/reader limits agree; raw undo "
-            "validates every index; the restore position of truncated values is computed, not decoded. Not round-trip equality.", "DESIGN.md §3.D, §4 C17"),
+            "validates every index; the restore position of truncated values is computed, not decoded; raw pointer copies "
+            "out of a slice stay inside it. Not round-trip equality.", "DESIGN.md §3.D, §4 C17"),
     "C18": ("must-precede / constant-operand / data-flow / who-may-call rules over MIR of the open path",
             "Advisory lock taken before any resize/sync/map/read, truncate(false), locked files flow into the long-lived "
             "structs, nobody else opens for writing or unlocks, last drop joins background tasks which hold no counted "
@@ -86,7 +87,8 @@ CLAIMED = {
             "length is of a class that keeps it within what is on disk; sources caching absolute offsets pin the "
             "placement; page entries published after the region covers them and sized from the bytes written; source "
             "constructors clamp; pointer reads only under a live Reader; a Reader pins its region; no direct truncate of a "
-            "compressed data region. Not the arithmetic exactness of offsets.",
+            "compressed data region; the rollback overlay is complete before it becomes the baseline; raw pointer copies out "
+            "of a slice stay inside it. Not the arithmetic exactness of offsets.",
             "DESIGN.md §3.E, §4 C20"),
 }
 
